@@ -8,5 +8,8 @@ CONSTANTS
   MaxNodes = 2
   MaxStack = 2
   BugOptionalDropsNone = TRUE
+  FixedStar = FALSE
+  FixedFinalInString = FALSE
+  FixedNestedLiteral = FALSE
 INVARIANT AnnotationRoutesAgree
 CHECK_DEADLOCK FALSE
